@@ -605,12 +605,20 @@ def _check_e8m0_mxint_bfloat_scale(ctx, r):
     av = m.modglobals['bitstore_helpers'].get('e8m0mxfp_allowed_values')
     g = m.funcs.get('bits:Bits._gete8m0mxfp')
     s = m.funcs.get('bitstore_helpers:e8m0mxfp2bitstore')
-    if av is None or g is None or s is None:
+    if g is None or s is None:
         raise AnalysisError('anchor vanished: e8m0 codec')
-    rng = [n for n in ast.walk(av) if isinstance(n, ast.Call) and isinstance(n.func, ast.Name) and n.func.id == 'range']
-    if not (isinstance(av, ast.ListComp) and len(rng) == 1 and '2 **' in ast.unparse(av.elt)):
-        raise AnalysisError('e8m0mxfp_allowed_values form not recognised')
-    lo, hi = fold(rng[0].args[0]), fold(rng[0].args[1])
+    if av is not None:
+        rng = [n for n in ast.walk(av) if isinstance(n, ast.Call) and isinstance(n.func, ast.Name) and n.func.id == 'range']
+        if not (isinstance(av, ast.ListComp) and len(rng) == 1 and '2 **' in ast.unparse(av.elt)):
+            raise AnalysisError('e8m0mxfp_allowed_values form not recognised')
+        lo, hi = fold(rng[0].args[0]), fold(rng[0].args[1])
+    else:
+        # no table of allowed values: the encoder computes the code; its range constants stand in for the table's
+        cmp_ = [n for n in own_walk(s.node) if isinstance(n, ast.Compare) and len(n.ops) == 2 and all(isinstance(o, (ast.LtE, ast.Lt)) for o in n.ops)]
+        vals = [(fold(n.left), fold(n.comparators[1])) for n in cmp_ if isinstance(fold(n.left), int) and isinstance(fold(n.comparators[1]), int)]
+        if len(vals) != 1:
+            raise AnalysisError('e8m0 encoder: neither a table of allowed values nor a recognisable exponent range (needs a human)')
+        lo, hi = vals[0][0], vals[0][1] + 1
     subs = [n for n in own_walk(g.node) if isinstance(n, ast.BinOp) and isinstance(n.op, ast.Sub) and 'getuint' in ast.unparse(n.left)]
     nan_t = [n for n in own_walk(g.node) if isinstance(n, ast.If) and 'nan' in ast.unparse(n.body[0])]
     if len(subs) != 1 or len(nan_t) != 1:
